@@ -211,6 +211,20 @@ func init() {
 		}
 		return ec.e().inL(scalar(args[0]), name)
 	}
+	// context.WithValue under templ's own context key: the model of a render is one context value shared by
+	// every context derived from it (getContext / InitializeContext, trusted). Verified code that installs another
+	// value under that key splits the per-render state (registry of emitted items, children slot).
+	stdModels["context.WithValue"] = func(ec *evalCtx, call *ast.CallExpr, recv Value, args []Value) Value {
+		if len(call.Args) == 3 {
+			if id, ok := ast.Unparen(call.Args[1]).(*ast.Ident); ok {
+				if obj := ec.info.Uses[id]; obj != nil && obj.Pkg() != nil && obj.Pkg().Path() == modulePath && obj.Name() == "contextKey" {
+					ec.oblige("ctxvalue", False, call.Pos(), "context.WithValue(ctx, contextKey, ...): a second context value for the same render - what is registered or installed through one context is invisible through the other")
+				}
+			}
+		}
+		ec.e().havockedImpure["context.WithValue"] = true
+		return ec.e().freshIface(ec.st, ec.e().fresher.name("context.WithValue"))
+	}
 	stdModels["time.NewTimer"] = func(ec *evalCtx, call *ast.CallExpr, recv Value, args []Value) Value {
 		// a timer: a non-nil pointer to a struct whose channel C is some channel (never closed by the runtime)
 		sv := &StructV{Names: []string{"C"}, F: map[string]Value{"C": Var(ec.e().fresher.name("timer.C"), SInt)}}
